@@ -1727,21 +1727,26 @@ def real_samples(
         else:
             neg_diff = diff_ulp(abs(min_value), min_pos_value)
             pos_diff = diff_ulp(abs(max_value), min_pos_value)
+            zero_num = int(bool(include_zero))
+            # each side holds its bound and, when different, the value next to zero
+            neg_min = 2 if neg_diff else 1
+            pos_min = 2 if pos_diff else 1
             neg_num = int(neg_diff * num / max(1, neg_diff + pos_diff))
-            pos_num = num - neg_num - int(bool(include_zero))
+            neg_num = min(max(neg_num, neg_min), num - zero_num - pos_min)
+            pos_num = num - neg_num - zero_num
 
             neg_part = real_samples(
                 size=neg_num,
                 dtype=dtype,
                 include_subnormal=include_subnormal,
                 min_value=min_value,
-                max_value=-min_pos_value if min_value < -min_pos_value else -dtype(0),
+                max_value=-min_pos_value,
             )
             pos_part = real_samples(
                 size=pos_num,
                 dtype=dtype,
                 include_subnormal=include_subnormal,
-                min_value=min_pos_value if min_pos_value < max_value else dtype(0),
+                min_value=min_pos_value,
                 max_value=max_value,
             )
             if include_zero:
